@@ -23,7 +23,8 @@ CLAIMED = {
         "signals",
         "exploration",
         "Seeded search over histories of connect/disconnect/emit with scripted re-entrant handlers and scheduled "
-        "garbage-collection points (last-reference drops and gc.collect() inside emits), checked per emit interval "
+        "garbage-collection points (last-reference drops and gc.collect() inside emits and inside connect() itself), weak arguments and "
+        "senders that are alive but falsy, sender classes up to three levels deep, checked per emit interval "
         "against a registry model with must/may/never-call sets, argument order, return value and weakref liveness. "
         "Sampling, not proof: a clean batch is evidence that no interleaving of the sampled shapes breaks the property.",
         "Trusts CPython refcount/GC semantics with gc disabled during a run; handlers never raise; liveness of weak "
@@ -39,8 +40,11 @@ CLAIMED["C13"] = (
     "Each of the six bundled event loops (select, asyncio, tornado, twisted, zmq, trio) runs real on a virtual clock "
     "and fake descriptors under seeded user programs: alarms on a time grid, watched pipes with scheduled arrivals "
     "(coinciding with alarm due times, order decided by a tie-break tape), idle callbacks, re-entrant API calls from "
-    "callbacks, arbitrary return values and one injected exception. A trace contract checker evaluates the alarm / "
-    "watch / idle / exception clauses on every run and at every point where the loop really waits. Sampling, not proof.",
+    "callbacks, arbitrary return values, one injected exception (optionally followed by an ExitMainLoop from another callback of "
+    "the same turn) and a second run() on the same loop object. A bounded enumeration runs first: every relative order (ties "
+    "included) of two timer expiries and one descriptor arrival x tie-break answers x exception placement (756 scenarios; select "
+    "loop in every tier, all six loops in the thorough tier). A trace contract checker evaluates the alarm / "
+    "watch / idle / exception clauses on every run and at every point where the loop really waits. Sampling beyond the enumerated set, not proof.",
     "Trusts the seam adapters (SimAsyncioLoop blocking step, SimSelector, SimPoller, trio MockClock + fd wait); "
     "equal due times, removal of fired alarms, and API results during loop shutdown are left unconstrained; GLib loop not installed.",
     "deterministic simulation: seeded timer/readiness schedules with fault injection on a virtual clock, trace contract checker",
@@ -55,7 +59,7 @@ CLAIMED["C05"] = (
     "short reads, SIGWINCH between fragments, timer/arrival ties both ways) on all six event loops and the synchronous "
     "get_input path; the real Screen reads a fake tty on a virtual clock. Oracles: no exception, byte accounting, "
     "fragmentation invariance against whole delivery of each actually-flushed group, an implementation-independent token "
-    "table (key names, X10/SGR mouse, CPR, UTF-8, double-byte), bounded flush. Exhaustive per sampled stream over "
+    "table (key names, X10/SGR mouse, CPR, UTF-8, double-byte, truncated UTF-8 reported byte by byte), bounded flush. Exhaustive per sampled stream over "
     "single-cut schedules; streams themselves are sampled.",
     "Line discipline not modelled; the invariance reference is urwid's own decoder on whole groups (metamorphic), paired "
     "with the independent token table; EAGAIN/EOF on the tty not injected.",
@@ -67,10 +71,12 @@ CLAIMED["C12"] = (
     "session",
     "fault_enumeration",
     "The whole stack runs real (MainLoop, posix raw Screen, six event loops plus the screen-without-external-loop path, "
-    "widgets, PopUpTarget) on a fake tty/virtual clock with RefTerm as the terminal. Each sampled session is run fault-free, "
+    "widgets, a PopUpLauncher, a second page the application switches to from an input handler, a widget that passes on a "
+    "different key) on a fake tty (output stream unbuffered or block-buffered) / virtual clock with RefTerm as the terminal. Each sampled session is run fault-free, "
     "the invocations of every callback category are counted, and the session is re-run for every invocation index x "
-    "{ExitMainLoop, ValueError, private exception} (crash-point enumeration; capped per session in the quick tier). Checked: "
-    "filter->widget->unhandled order and raw-byte arrival order, screen equals a fresh render whenever the loop really waits, "
+    "{ExitMainLoop, ValueError, private exception, KeyboardInterrupt} (crash-point enumeration; capped per session in the quick tier). Checked: "
+    "filter->topmost widget (the pop-up or the new page once an earlier event - also of the same batch - has opened / installed it)"
+    "->unhandled order with the key the widget returned, raw-byte arrival order, screen equals a fresh render whenever the loop really waits, "
     "exit/propagation of the injected object, and full restoration (buffer, cursor, mouse/paste/focus modes, SGR, charset, "
     "termios list, SIGWINCH/SIGTSTP/SIGCONT handlers). Exhaustive over crash points of a sampled session; sessions are sampled.",
     "Trusts RefTerm as a model of the user's terminal and the fake termios list (real tty.cfmakecbreak applied); the suspend cycle "
@@ -100,15 +106,16 @@ CLAIMED["C15"] = (
     "vterm",
     "exploration",
     "urwid.vterm.TermCanvas is fed seeded program output (reference subset: printable runs with autowrap, CR/LF/BS, cursor "
-    "addressing, EL/ED, ICH/DCH/ECH, IL/DL, DECSTBM, IND/RI/NEL, SGR colours, DSR/CPR/DA; outside it: tabs, modes, charsets, OSC, "
+    "addressing incl. origin mode, EL/ED, ICH/DCH/ECH, IL/DL, DECSTBM, IND/RI/NEL, SGR colours, DSR/CPR/DA, multi-byte single-width "
+    "characters; outside it: tabs, other modes, charsets, OSC, double-width text, "
     "huge/zero/missing parameters, truncated sequences, C1 bytes, invalid UTF-8, random bytes) chunked at sampled byte boundaries, "
     "with resizes at any byte boundary, scroll-back moves and focus changes in between. Checked after every piece: no exception, "
     "grid/cursor/region/canvas-shape invariants, well-formed replies, chunking invariance, and cell-by-cell agreement (text, cursor, "
     "colours, replies, scroll-back) with RefTerm dialect V while the stream stays in the named subset. Sampling, not proof.",
     "Trusts RefTerm as the VT100 reference (hand-written from the DEC/xterm documents); comparison stops where terminals are not "
     "uniform (non-printing operations on a pending wrap, column after IL/DL, erase under reverse video); parameters capped at 10^5; "
-    "three known findings of the SGR colour state mask colour comparisons of streams that trigger them; the Terminal widget layer "
-    "(pty, fork, read chunks, hang-up) is not covered.",
+    "three known findings of the SGR colour state mask colour comparisons of streams that trigger them; 12% of the runs drive the "
+    "Terminal widget in a real MainLoop with pty.fork/os.kill/waitpid replaced (read chunking, EWOULDBLOCK, hang-up, resize).",
     "deterministic simulation: seeded output chunking and resize placement, reference-terminal (VT100 model) oracle",
     "DESIGN.md section 5, C15",
 )
@@ -123,7 +130,7 @@ CLAIMED["C06"] = (
     "Content, cursor, rows(), input results and exceptions must agree at every step, and every held canvas is re-read after every "
     "later step (cached canvases are never modified). Sampling, not proof.",
     "Sound as long as urwid is deterministic given the call sequence; run boundaries are normalised away; Scrollable trees are "
-    "masked by a known finding (state resolved inside render()).",
+    "masked by a known finding (state resolved inside render()), and differences that follow a diverged Edit view-shift flag by another.",
     "deterministic simulation: seeded render/mutation/canvas-lifetime schedules, cached tree vs cache-defeated twin (differential oracle)",
     "DESIGN.md section 5, C06",
 )
@@ -137,9 +144,12 @@ CLAIMED["C20"] = (
     "land between an action and the render that resolves it. At every render the view must be rows p..p+h of the wrapped widget's "
     "full rendering at the child width with 0 <= p <= max(0,total-h) and get_scrollpos() == p; the scrollbar is drawn iff the "
     "content is taller than the view, its parts are contiguous, non-negative and sum to h, the thumb is at the top iff p == 0 and "
-    "never moves up when p does not decrease; a key handled by the wrapped widget does not also scroll. Sampling, not proof.",
+    "never moves up when p does not decrease; a key handled by the wrapped widget does not also scroll; set_scrollpos(k) and an "
+    "unhandled wheel event lead to the documented position. A ListBox under a ScrollBar (absolute and relative protocol) is driven "
+    "too, and 15% of the Scrollable histories run as timed events through the real MainLoop + Screen + event loop with the clauses "
+    "evaluated (also on the RefTerm grid) whenever the loop waits. Sampling, not proof.",
     "The slice model uses the wrapped widget's own full rendering (text layout is trusted); views narrower than the scrollbar are "
-    "skipped; ListBox under ScrollBar (relative protocol) is not generated yet.",
+    "skipped; two known findings about the relative (ListBox) scrollbar protocol counting items instead of rows.",
     "deterministic simulation: seeded event/render batching and resize placement against a slice-of-full-render model",
     "DESIGN.md section 5, C20",
 )
@@ -153,8 +163,11 @@ CLAIMED["C10"] = (
     "width changes as explicit steps because the view shift and the preferred column are state set by them. After every step: text "
     "and offset equal a reference editor (display-row geometry from a fresh twin through urwid's layout), handled/unhandled result, "
     "offset bounds, cursor drawn on the character at the offset, clicks land on the character displayed by the last render, change/"
-    "postchange signal order and arguments, numeric alphabets. Sampling, not proof.",
-    "Text layout is trusted for geometry (C03); str text only; double-width characters only at widths >= 2; two known findings "
+    "postchange signal order and arguments, numeric alphabets and leading-zero trimming; a fifth of the Edit histories use bytes "
+    "(UTF-8) captions and texts, where the offset must stay on character boundaries. 10% of the histories run as timed events "
+    "through the real MainLoop + Screen + event loop: MainLoop makes the calls, hooks on the Edit hand each one to the same "
+    "per-operation comparison, and the terminal's cursor is compared with the Edit's at every wait. Sampling, not proof.",
+    "Text layout is trusted for geometry (C03); double-width characters only at widths >= 2; two known findings "
     "(stale view-shift flag at a click, zero-width-only rows in the layout) mask the histories that trigger them.",
     "deterministic simulation: seeded input/render/resize interleavings against a reference editor model",
     "DESIGN.md section 5, C10",
@@ -170,7 +183,9 @@ CLAIMED["C07"] = (
     "is known and resolved by whichever of render/keypress/mouse_event comes first. At every render: no exception, the rows are a "
     "contiguous slice of the concatenated item renderings followed only by blanks, a row of the focus item (and its cursor row) is "
     "visible, no blank above the first item, trailing blanks only when scrolled to the top, clicks focus the clicked selectable item, "
-    "keypress returns None or the key. Sampling, not proof.",
+    "keypress returns None or the key. 12% of the histories run as timed events (key / SGR mouse bytes, SIGWINCH, application timers) "
+    "through the real MainLoop + Screen + one of the six loops, where batching of events before a redraw is decided by the schedule; "
+    "the clauses are then evaluated on the canvas MainLoop drew and on the RefTerm grid whenever the loop waits. Sampling, not proof.",
     "Item renderings are the model (layout trusted); wrap-around walkers and focus-dependent item heights are not generated; when "
     "several slice offsets fit (duplicate rows) any is accepted.",
     "deterministic simulation: seeded user/application interleavings with explicit render and resize steps against a contiguous-slice model",
@@ -185,9 +200,12 @@ CLAIMED["C08"] = (
     "replacement, resizes and renders. After every step: focus_position valid and contents[focus_position] is focus (IndexError for "
     "empty containers and invalid assignments, which change nothing), keys only reach leaves on the focus path, unhandled keys come "
     "back unchanged, arrow keys land on selectable children, selectable() follows the contents just set, only the focus path is "
-    "rendered with focus, a saved focus path can be written back. Sampling, not proof.",
+    "rendered with focus, a saved focus path can be written back; an unbound character is offered to the same leaves as in a "
+    "freshly built tree with the same contents, options and focus positions (history independence of key delivery; trees without "
+    "ListBox). Sampling, not proof.",
     "The focus path is read at the moment a key or focused render reaches a leaf (ListBox resolves pending focus inside keypress/"
-    "render); one known finding (ListBox scrolling onto unselectable items) is recorded.",
+    "render); two known findings (ListBox scrolling onto unselectable items; ListBox paging over an item whose height depends on "
+    "its own inner focus) are recorded.",
     "deterministic simulation: seeded user/application interleavings on recording leaves against a focus-validity model",
     "DESIGN.md section 5, C08",
 )
